@@ -9,7 +9,7 @@ use vcore::{Rng, guard, rng::fnv1a};
 
 use crate::{
     Mon,
-    gff::{gen_position, gen_score, to_record_buf},
+    gff::{Hint, gen_position, gen_score, to_record_buf},
     norm::{self, Norm},
     text::show,
 };
@@ -133,11 +133,15 @@ fn parse_col9(col: &[u8]) -> Result<Vec<(Vec<u8>, Vec<u8>)>, String> {
     Ok(out)
 }
 
-pub fn run_record(rng: &mut Rng, mon: &mut Mon, file: &mut Vec<(Vec<u8>, Norm)>) {
-    let nattr = match rng.below(6) {
-        0 => 0,
-        1 => 1,
-        _ => 1 + rng.usize_below(5),
+pub fn run_record(rng: &mut Rng, hint: Hint, mon: &mut Mon, file: &mut Vec<(Vec<u8>, Norm)>) {
+    let nattr = match hint {
+        Hint::Minimal => 0,
+        Hint::Rich => 4 + rng.usize_below(4),
+        Hint::Random => match rng.below(6) {
+            0 => 0,
+            1 => 1,
+            _ => 1 + rng.usize_below(5),
+        },
     };
     let mut attrs: Vec<(Vec<u8>, Vec<Vec<u8>>)> = Vec::new();
     let mut classes = Vec::new();
@@ -176,30 +180,106 @@ pub fn run_record(rng: &mut Rng, mon: &mut Mon, file: &mut Vec<(Vec<u8>, Norm)>)
         ty: if rng.bool() { rng.pick(&["gene", "transcript", "exon", "CDS", "start_codon", "stop_codon"]).as_bytes().to_vec() } else { gen_plain(rng) },
         start,
         end: start.saturating_add(rng.skewed(100_000) as usize),
-        score: gen_score(rng).map(norm::score_bits),
-        strand: if rng.chance(1, 12) { 3 } else { rng.below(3) as u8 },
-        phase: if rng.bool() { None } else { Some(rng.below(3) as u8) },
+        score: match hint {
+            Hint::Minimal => None,
+            Hint::Rich => Some(norm::score_bits(12.5)),
+            Hint::Random => gen_score(rng).map(norm::score_bits),
+        },
+        strand: match hint {
+            Hint::Minimal => 0,
+            Hint::Rich => 1 + rng.below(2) as u8,
+            Hint::Random => {
+                if rng.chance(1, 12) {
+                    3
+                } else {
+                    rng.below(3) as u8
+                }
+            }
+        },
+        phase: match hint {
+            Hint::Minimal => None,
+            Hint::Rich => Some(rng.below(3) as u8),
+            Hint::Random => {
+                if rng.bool() {
+                    None
+                } else {
+                    Some(rng.below(3) as u8)
+                }
+            }
+        },
         attrs,
-    };
+        arrays: Vec::new(),
+    }
+    .with_shapes(rng.chance(1, 6));
     check_record(n, format!("{classes:?}"), rng, mon, file);
 }
 
-/// Fixed records that are part of every run (witnesses of the known findings among them).
+/// Fixed records that are part of every run: quotes/backslashes in values, and rich/minimal lines
+/// next to each other for the whole-file passes.
 pub fn corpus() -> Vec<Norm> {
-    let base = Norm { seqid: b"chr1".to_vec(), source: b"src".to_vec(), ty: b"exon".to_vec(), start: 5, end: 50, score: Some(norm::score_bits(0.5)), strand: 2, phase: Some(1), attrs: Vec::new() };
+    let base = Norm { seqid: b"chr1".to_vec(), source: b"src".to_vec(), ty: b"exon".to_vec(), start: 5, end: 50, score: Some(norm::score_bits(0.5)), strand: 2, phase: Some(1), attrs: Vec::new(), arrays: Vec::new() };
     let vals: &[&[&str]] = &[&["plain"], &["a\"b"], &["x\"y\""], &["\"", "\"\""], &["back\\slash", "\\"], &["q\"\\\"", "v; w \"z\";"], &["", "two", "three"]];
-    vals.iter()
+    let mut v: Vec<Norm> = vals
+        .iter()
         .map(|vs| {
             let mut n = base.clone();
             n.attrs = vec![(b"gene_id".to_vec(), vec![b"g1".to_vec()]), (b"note".to_vec(), vs.iter().map(|s| s.as_bytes().to_vec()).collect())];
-            n
+            n.with_shapes(false)
         })
-        .collect()
+        .collect();
+    let mut minimal = base.clone();
+    minimal.source = b".".to_vec();
+    minimal.score = None;
+    minimal.strand = 0;
+    minimal.phase = None;
+    let mut rich = base.clone();
+    rich.attrs = vec![
+        (b"gene_id".to_vec(), vec![b"g1".to_vec()]),
+        (b"transcript_id".to_vec(), vec![b"t1".to_vec()]),
+        (b"tag".to_vec(), vec![b"basic".to_vec(), b"CCDS".to_vec(), b"MANE \"Select\"".to_vec()]),
+        (b"note".to_vec(), vec![b"a; b".to_vec()]),
+        (b"exon_number".to_vec(), vec![b"3".to_vec()]),
+    ];
+    for n in [&rich, &minimal, &rich, &minimal, &minimal, &rich] {
+        v.push(n.clone().with_shapes(false));
+    }
+    v
+}
+
+/// All inherent accessors of the lazy GTF view (keyed access must agree with iteration).
+fn lazy_norm(rec: &gtf::Record<'_>) -> Result<Norm, String> {
+    use gtf::record::attributes::field::Value;
+    let la = rec.attributes().map_err(|e| format!("attributes(): {e}"))?;
+    let mut attrs = Vec::new();
+    let mut arrays = Vec::new();
+    for item in la.iter() {
+        let (k, v) = item.map_err(|e| e.to_string())?;
+        let vs: Vec<Vec<u8>> = v.iter().map(|s| s.to_vec()).collect();
+        let is_array = matches!(v, Value::Array(_));
+        let g = la.get(k).and_then(|r| r.ok()).map(|v| (v.iter().map(|s| s.to_vec()).collect::<Vec<_>>(), matches!(v, Value::Array(_))));
+        if g != Some((vs.clone(), is_array)) {
+            return Err(format!("Attributes::get({}) differs from iter()", show(k)));
+        }
+        arrays.push(is_array);
+        attrs.push((k.to_vec(), vs));
+    }
+    Ok(Norm {
+        seqid: rec.reference_sequence_name().to_vec(),
+        source: rec.source().to_vec(),
+        ty: rec.ty().to_vec(),
+        start: usize::from(rec.start().map_err(|e| e.to_string())?),
+        end: usize::from(rec.end().map_err(|e| e.to_string())?),
+        score: rec.score().transpose().map_err(|e| e.to_string())?.map(norm::score_bits),
+        strand: norm::strand_code(rec.strand().map_err(|e| e.to_string())?),
+        phase: rec.phase().transpose().map_err(|e| e.to_string())?.map(norm::phase_code),
+        attrs,
+        arrays,
+    })
 }
 
 pub fn check_record(n: Norm, classes: String, rng: &mut Rng, mon: &mut Mon, file: &mut Vec<(Vec<u8>, Norm)>) {
     let has_quote = n.attrs.iter().any(|a| a.1.iter().any(|v| v.contains(&b'"')));
-    let rb = to_record_buf(&n, rng.chance(1, 6));
+    let rb = to_record_buf(&n);
     mon.c("gtf.records_generated", 1);
     let how = rng.below(3);
     let rb2 = rb.clone();
@@ -275,6 +355,8 @@ pub fn check_record(n: Norm, classes: String, rng: &mut Rng, mon: &mut Mon, file
             }
             if let Some(f) = gn.diff(&n) {
                 mon.v(format!("gtf-roundtrip:{f}{cls}"), format!("field {f}: wrote {n:?}\n as {}\n read back {gn:?}", show(&bytes)));
+            } else if let Some((what, i)) = n.shape_diff(&gn) {
+                mon.v(format!("gtf-roundtrip:attributes:{what}"), format!("attribute {}: wrote {n:?}\n as {}\n read back {gn:?}", show(&n.attrs[i].0), show(&bytes)));
             }
             mon.c("gtf.records_read_back", 1);
             Some(gn)
@@ -295,29 +377,7 @@ pub fn check_record(n: Norm, classes: String, rng: &mut Rng, mon: &mut Mon, file
         let mut r = gtf::io::Reader::new(&b3[..]);
         let line = r.lines().next().ok_or("lines() yields nothing")?.map_err(|e| format!("lines(): {e}"))?;
         let rec = line.as_record().ok_or("line is not a record")?.map_err(|e| format!("as_record(): {e}"))?;
-        let la = rec.attributes().map_err(|e| format!("attributes(): {e}"))?;
-        let mut attrs = Vec::new();
-        for item in la.iter() {
-            let (k, v) = item.map_err(|e| e.to_string())?;
-            let vs: Vec<Vec<u8>> = v.iter().map(|s| s.to_vec()).collect();
-            // keyed access
-            let g = la.get(k).and_then(|r| r.ok()).map(|v| v.iter().map(|s| s.to_vec()).collect::<Vec<_>>());
-            if g.as_ref() != Some(&vs) {
-                return Err(format!("Attributes::get({}) differs from iter()", show(k)));
-            }
-            attrs.push((k.to_vec(), vs));
-        }
-        let lz = Norm {
-            seqid: rec.reference_sequence_name().to_vec(),
-            source: rec.source().to_vec(),
-            ty: rec.ty().to_vec(),
-            start: usize::from(rec.start().map_err(|e| e.to_string())?),
-            end: usize::from(rec.end().map_err(|e| e.to_string())?),
-            score: rec.score().transpose().map_err(|e| e.to_string())?.map(norm::score_bits),
-            strand: norm::strand_code(rec.strand().map_err(|e| e.to_string())?),
-            phase: rec.phase().transpose().map_err(|e| e.to_string())?.map(norm::phase_code),
-            attrs,
-        };
+        let lz = lazy_norm(&rec)?;
         let via_trait = Norm::of_feature_record(&rec).map_err(|e| format!("feature::Record accessors: {e}"))?;
         if via_trait != lz {
             return Err(format!("feature::Record accessors {via_trait:?} differ from the inherent accessors {lz:?}"));
@@ -331,10 +391,18 @@ pub fn check_record(n: Norm, classes: String, rng: &mut Rng, mon: &mut Mon, file
         Ok(Ok((lz, owned))) => {
             if let Some(f) = lz.diff(&owned) {
                 mon.v(format!("gtf-lazy:{f}"), format!("lazy accessors {lz:?} != owned record built from the view {owned:?}"));
+            } else if lz != owned {
+                mon.v("gtf-lazy:attributes:string-vs-array", format!("lazy accessors {lz:?} != owned record built from the view {owned:?}"));
             }
             if let Some(gn) = &gn {
-                if let Some(f) = owned.diff(gn) {
+                if owned != *gn {
+                    let f = owned.diff(gn).unwrap_or("attributes:string-vs-array");
                     mon.v(format!("gtf-lazy:owned-ne-record_bufs:{f}"), format!("{owned:?} vs {gn:?}"));
+                }
+            }
+            if lz.diff(&n).is_none() {
+                if let Some((what, i)) = n.shape_diff(&lz) {
+                    mon.v(format!("gtf-lazy:attributes:{what}"), format!("attribute {}: described {n:?}, lazy view says {lz:?}", show(&n.attrs[i].0)));
                 }
             }
             mon.c("gtf.lazy_views_compared", 1);
@@ -345,22 +413,68 @@ pub fn check_record(n: Norm, classes: String, rng: &mut Rng, mon: &mut Mon, file
     }
 }
 
+/// Whole-file passes through ONE reader per API (`record_bufs()`, `line_bufs()`, a
+/// `read_line(&mut line)` loop over one reused `Line`, `lines()`); see gff::run_file.
 pub fn run_file(rng: &mut Rng, mon: &mut Mon, file: &[(Vec<u8>, Norm)]) {
     let mut all = Vec::new();
     for (b, _) in file {
         all.extend_from_slice(b);
     }
+    let adj = file.windows(2).filter(|w| w[0].1.attrs.is_empty() != w[1].1.attrs.is_empty()).count();
+    mon.c("gtf.file_adjacent_rich_minimal_pairs", adj as u64);
     let cap = *rng.pick(&[1usize, 2, 5, 16, 4096]);
-    let got = guard::catch(move || -> std::io::Result<Vec<Norm>> {
+    type Pass = (&'static str, Vec<Norm>, usize);
+    fn of_line(line: &gtf::Line, v: &mut Vec<Norm>) -> Result<(), String> {
+        if let Some(r) = line.as_record() {
+            let rec = r.map_err(|e| format!("as_record(): {e}"))?;
+            v.push(lazy_norm(&rec)?);
+            let owned = RecordBuf::try_from_feature_record(&rec).map_err(|e| format!("try_from_feature_record: {e}"))?;
+            v.push(Norm::of_record_buf(&owned));
+        }
+        Ok(())
+    }
+    let got = guard::catch(move || -> Result<Vec<Pass>, String> {
+        let mut out: Vec<Pass> = Vec::new();
         let mut r = gtf::io::Reader::new(BufReader::with_capacity(cap, &all[..]));
-        r.record_bufs().map(|x| x.map(|r| Norm::of_record_buf(&r))).collect()
+        out.push(("record_bufs", r.record_bufs().map(|x| x.map(|r| Norm::of_record_buf(&r))).collect::<std::io::Result<Vec<_>>>().map_err(|e| format!("record_bufs(): {e}"))?, 1));
+        let mut r = gtf::io::Reader::new(BufReader::with_capacity(cap, &all[..]));
+        let mut v = Vec::new();
+        for lb in r.line_bufs() {
+            if let gtf::LineBuf::Record(rb) = lb.map_err(|e| format!("line_bufs(): {e}"))? {
+                v.push(Norm::of_record_buf(&rb));
+            }
+        }
+        out.push(("line_bufs", v, 1));
+        let mut r = gtf::io::Reader::new(BufReader::with_capacity(cap, &all[..]));
+        let mut line = gtf::Line::default();
+        let mut v = Vec::new();
+        while r.read_line(&mut line).map_err(|e| format!("read_line(): {e}"))? != 0 {
+            of_line(&line, &mut v)?;
+        }
+        out.push(("read_line", v, 2));
+        let mut r = gtf::io::Reader::new(BufReader::with_capacity(cap, &all[..]));
+        let mut v = Vec::new();
+        for l in r.lines() {
+            of_line(&l.map_err(|e| format!("lines(): {e}"))?, &mut v)?;
+        }
+        out.push(("lines", v, 2));
+        Ok(out)
     });
     match got {
         Err(p) => mon.v(format!("gtf-file:panic:{}", p.sig), p.message),
         Ok(Err(e)) => mon.v("gtf-file:reader-error", format!("reading {} concatenated lines: {e}", file.len())),
-        Ok(Ok(recs)) => {
-            if recs.len() != file.len() || recs.iter().zip(file).any(|(a, b)| *a != b.1) {
-                mon.v("gtf-file:records-ne-per-line-pass", format!("{} records expected, {} read", file.len(), recs.len()));
+        Ok(Ok(passes)) => {
+            for (api, seen, per) in passes {
+                let exp: Vec<&Norm> = file.iter().flat_map(|f| std::iter::repeat_n(&f.1, per)).collect();
+                if seen.len() != exp.len() {
+                    mon.v(format!("gtf-file:{api}:line-count"), format!("{} entries expected, {api} yields {}", exp.len(), seen.len()));
+                    continue;
+                }
+                if let Some(i) = seen.iter().zip(&exp).position(|(a, b)| a != *b) {
+                    let f = seen[i].diff(exp[i]).unwrap_or("attributes:string-vs-array");
+                    mon.v(format!("gtf-file:{api}:record:{f}"), format!("entry #{i} of the file read through one reader: {api} gives {:?}, the per-line pass (== description) gave {:?}; previous entry {:?}", seen[i], exp[i], i.checked_sub(1).map(|j| &seen[j])));
+                }
+                mon.c(&format!("gtf.file_entries_compared[{api}]"), seen.len() as u64);
             }
             mon.c("gtf.files_read", 1);
             mon.evals += 1;
